@@ -80,6 +80,18 @@ var stdAssumptions = []string{
 	"grammars are well-formed by an independent Ford-style analysis (precondition of the property)",
 }
 
+// nFor: the thorough tier explores one rune more on the curated shapes and on grammars with few
+// distinguishable terminal classes (path growth per rune is small there).
+func nFor(c *Ctx, gg *GenGrammar, n int) int {
+	if c.Quick() {
+		return n
+	}
+	if strings.HasPrefix(gg.G.Tag, "shape/") || strings.HasPrefix(gg.G.Tag, "endlook/") || gg.G.Classes() <= 3 {
+		return n + 1
+	}
+	return n
+}
+
 func lenJobs(entry string, maxN int, extra ...int) []*Job {
 	var jobs []*Job
 	for n := 0; n <= maxN; n++ {
@@ -89,6 +101,7 @@ func lenJobs(entry string, maxN int, extra ...int) []*Job {
 }
 
 func stdBounds(c *Ctx, n int) {
+	c.Bounds["input_length_note"] = "thorough tier: one rune more (N+1) on the curated shapes, the end-of-input lookahead layer and grammars with <= 3 terminal classes"
 	c.Bounds["input_length"] = fmt.Sprintf("all lengths 0..%d runes; each rune any Unicode scalar value (0..0x10FFFF minus surrogates), i.e. every Go string whose decoding has that many runes", n)
 	c.Bounds["outside"] = "longer inputs; grammars outside the enumerated family; semantic predicates with side effects"
 	c.Assumptions = append(c.Assumptions, stdAssumptions...)
@@ -123,7 +136,7 @@ func init() {
 			Jobs: func(gg *GenGrammar) []*Job {
 				var jobs []*Job
 				for r := range gg.G.G.Rules {
-					jobs = append(jobs, lenJobs("C01", N, r)...)
+					jobs = append(jobs, lenJobs("C01", nFor(c, gg, N), r)...)
 				}
 				return jobs
 			},
@@ -138,7 +151,7 @@ func init() {
 			Entries: func(gg *GenGrammar) []EntrySpec {
 				return []EntrySpec{{Name: "C03", Params: "n, rule int", Body: "hl.C03(G, vd.New, n, rule, NSW)"}}
 			},
-			Jobs:              func(gg *GenGrammar) []*Job { return lenJobs("C03", N, 0) },
+			Jobs:              func(gg *GenGrammar) []*Job { return lenJobs("C03", nFor(c, gg, N), 0) },
 			BrokenIsViolation: true, ValidateEveryGrammar: validateEvery(c), Cfg: parserCfg(c),
 		}
 	}
@@ -163,7 +176,7 @@ func init() {
 				return es
 			},
 			Jobs: func(gg *GenGrammar) []*Job {
-				jobs := lenJobs("C02", N)
+				jobs := lenJobs("C02", nFor(c, gg, N))
 				for r := 1; r < len(gg.G.G.Rules); r++ {
 					jobs = append(jobs, lenJobs("C02Entry", N, r)...)
 				}
@@ -180,7 +193,7 @@ func init() {
 			Entries: func(gg *GenGrammar) []EntrySpec {
 				return []EntrySpec{{Name: "C04", Params: "n int", Body: "hl.C04(G, vd.New, n, NSW)"}}
 			},
-			Jobs:              func(gg *GenGrammar) []*Job { return lenJobs("C04", N) },
+			Jobs:              func(gg *GenGrammar) []*Job { return lenJobs("C04", nFor(c, gg, N)) },
 			BrokenIsViolation: true, ValidateEveryGrammar: validateEvery(c), Cfg: parserCfg(c),
 		}
 	}
@@ -195,7 +208,7 @@ func init() {
 					{Name: "C05Unit", Params: "k int", Body: "hl.C05Unit(vd.ASTOf, vd.RuleName(), k)"}}
 			},
 			Jobs: func(gg *GenGrammar) []*Job {
-				jobs := lenJobs("C05", N)
+				jobs := lenJobs("C05", nFor(c, gg, N))
 				if gg.Idx == 0 {
 					// the AST builder is grammar independent: one package runs the unit harness
 					kmax := 4
@@ -219,7 +232,7 @@ func init() {
 			Entries: func(gg *GenGrammar) []EntrySpec {
 				return []EntrySpec{{Name: "C06", Params: "n int", Body: "hl.C06(G, vd.New, n, NSW)"}}
 			},
-			Jobs:              func(gg *GenGrammar) []*Job { return lenJobs("C06", N) },
+			Jobs:              func(gg *GenGrammar) []*Job { return lenJobs("C06", nFor(c, gg, N)) },
 			BrokenIsViolation: true, ValidateEveryGrammar: validateEvery(c), Cfg: parserCfg(c),
 		}
 	}
@@ -243,7 +256,7 @@ func init() {
 				}
 				return []EntrySpec{{Name: "C07", Params: "n int", Body: fmt.Sprintf("hl.C07(G, vd.New, %s, %s, []bool{%s}, n, NSW)", names, ctors, strings.Join(ex, ", "))}}
 			},
-			Jobs:              func(gg *GenGrammar) []*Job { return lenJobs("C07", N) },
+			Jobs:              func(gg *GenGrammar) []*Job { return lenJobs("C07", nFor(c, gg, N)) },
 			BrokenIsViolation: true, ValidateEveryGrammar: validateEvery(c), Cfg: parserCfg(c),
 		}
 	}
@@ -259,7 +272,7 @@ func init() {
 					{Name: "C11Reuse", Params: "n1, n2 int", Body: "hl.C11Reuse(G, vd.New, strconv.Quote, n1, n2, NSW)"}}
 			},
 			Jobs: func(gg *GenGrammar) []*Job {
-				jobs := lenJobs("C11", N)
+				jobs := lenJobs("C11", nFor(c, gg, N))
 				if strings.HasPrefix(gg.G.Tag, "shape/") || gg.Idx%6 == 0 {
 					for _, ns := range [][2]int{{3, 2}, {2, 3}, {3, 3}, {3, 0}, {3, 1}} {
 						jobs = append(jobs, &Job{Entry: "C11Reuse", Args: []int{ns[0], ns[1]}})
@@ -287,7 +300,7 @@ func init() {
 				}
 				return []EntrySpec{{Name: "C13", Params: "n int", Body: fmt.Sprintf("hl.C13(G, %s, %s, []bool{%s}, HASACT, n, NSW)", names, ctors, strings.Join(ast, ", "))}}
 			},
-			Jobs:              func(gg *GenGrammar) []*Job { return lenJobs("C13", N) },
+			Jobs:              func(gg *GenGrammar) []*Job { return lenJobs("C13", nFor(c, gg, N)) },
 			BrokenIsViolation: false, ValidateEveryGrammar: validateEvery(c), Cfg: parserCfg(c),
 		}
 	}
